@@ -43,7 +43,7 @@ def table_discipline(ctx, pfx):
     ops = table_ops(F)
     users = [fid for fid, f in F.fns.items() if f.calls(resolved_re=r'CONTABLE as std::ops::Deref>::deref$')]
     users = [u for u in users if not u.startswith('<proto::tcb::CONTABLE as ')]
-    rep.check(r1, sorted(users) == sorted(TABLE_FNS), 'users-of-CONTABLE', 'functions dereferencing the CONTABLE static: %s' % sorted(users))
+    rep.check(r1, bool(users) and set(users) <= set(TABLE_FNS), 'users-of-CONTABLE', 'functions dereferencing the CONTABLE static: %s' % sorted(users))
     for fid, bi, name in ops:
         f = F.fn(fid)
         key = '%s:%s' % (fid, name)
